@@ -69,6 +69,16 @@ def handleContent (s : DState) (fs : List String) : DState × String :=
     match decAllow allow with
     | some a => (s, withLines rest fun ls => showLines (applyFilters (keys a) ls))
     | none => (s, "bad-op")
+  | "lf" :: mx :: host :: allow :: rest =>
+    match decNat mx, decBool host, decAllow allow with
+    | some m, some h, some a => (s, withLines rest fun ls =>
+        (if h && !a.isEmpty then "grep" else if isHuge m ls then "tail" else "whole") ++ "\t" ++
+        showLines (loadFile grepF m h a ls))
+    | _, _, _ => (s, "bad-op")
+  | "sf" :: mx :: host :: loaded :: allow :: rest =>
+    match decNat mx, decBool host, decBool loaded, decAllow allow with
+    | some m, some h, some ld, some a => (s, withLines rest fun ls => showLines (streamFile grepF m h ld a ls))
+    | _, _, _, _ => (s, "bad-op")
   | "pc" :: host :: filt :: allow :: rest =>
     match decBool host, decBool filt, decAllow allow with
     | some h, some f, some a => (s, withLines rest fun ls => showLines (providerContent grepF h f a ls))
